@@ -18,7 +18,14 @@ var engines = []engine{
 		Harness:  []string{"internal/bgp/native"},
 		StubTest: []string{"internal/bgp/native"},
 	},
+	{
+		Name: "gfrr", TestPkg: "internal/bgp/frr", TestName: "TestVerifGfrr", SimPkgs: gfrrPkgs, Rules: "r1,r2,r3,r4,r5", Subst: "harness/frr_subst.json",
+		Harness:  []string{"internal/bgp/frr"},
+		StubTest: []string{"internal/bgp/frr"},
+	},
 }
+
+var gfrrPkgs = []string{"internal/bgp/frr"}
 
 var gnativePkgs = []string{"internal/bgp/native"}
 
@@ -96,7 +103,26 @@ var gnativeAssume = []string{
 
 const gnativeRule = "Each run draws session parameters (ASNs around the 2/4-byte boundary, iBGP/eBGP, peer capabilities, hold times, router id), a sequence of 1-8 Set calls (0-4 prefixes of any length 0..32, local preferences, 0..63 communities, duplicates, empty sets) with drawn pauses, an optional Close, and per connection a peer behaviour (wrong ASN, delayed/garbled OPEN, NOTIFICATION, drop after k messages, stall, refused or timed-out dial); the scheduler draws every interleaving of the session's goroutines, the peer and the workload."
 
+var gfrrComponents = map[string]string{
+	"frr.NewSessionManager, debouncer goroutine, reloadValidator goroutine, NewSession/Set/Close/SyncBFDProfiles/SyncExtraInfo": "real goroutines, one released at a time by the simulator",
+	"createConfig, templateConfig (embedded templates), generateAndReloadConfigFile, writeConfig":                              "real",
+	"configuration file and reloader status file":                                                                            "simulated (simfs) with failing and torn writes",
+	"reloader signal (var reloadConfig) and the FRR reloader script":                                                         "stub: signal may fail or be slow; an asynchronous reloader task reads the file, applies or refuses it, writes the status file",
+	"FRR":                                                                                                                    "frrinterp: interpreter of the emitted subset (network, prefix-list, route-map, on-match next); anything else is reported as trouble (exit 2)",
+}
+
+var gfrrAssume = []string{
+	"FRR semantics as implemented by /verif/sim/frrinterp (first matching prefix-list entry decides, implicit deny, route-map entries in sequence order, on-match next continues, additive communities accumulate)",
+	"'submitted' = handed to the debouncer's channel; the configuration applied by an attempt must be the latest handed-over one or one in flight at that moment",
+}
+
+const gfrrRule = "Each run draws the debounce and retry intervals, 1-3 submitter tasks issuing 2-11 session operations each (new sessions over several routers/VRFs with drawn parameters, advertisement sets over 7 prefixes with local preferences and standard/large communities, conflicting requests, identical resubmissions, closes, extra-info markers, BFD profiles) at drawn times, and fault kinds (signal failure, slow signal, FRR refusing a reload, failed and torn file writes); the scheduler draws every interleaving of submitters, debouncer, validator and reloader."
+
 func init() {
+	props = append(props, propDef{ID: "C19", Level: "exploration", Rule: gfrrRule, Assumptions: gfrrAssume, Components: gfrrComponents,
+		Batches: []batch{{Engine: "gfrr", Variant: "", Runs: 5000, RunsT: 80000, WallS: 170, WallST: 1500}}})
+	props = append(props, propDef{ID: "C14", Level: "exploration", Rule: gfrrRule, Assumptions: gfrrAssume, Components: gfrrComponents,
+		Batches: []batch{{Engine: "gfrr", Variant: "", Runs: 5000, RunsT: 80000, WallS: 170, WallST: 1500}}})
 	for _, id := range []string{"C16", "C17"} {
 		bs := []batch{{Engine: "gnative", Variant: "", Runs: 6000, RunsT: 100000, WallS: 170, WallST: 1500}}
 		if id == "C16" {
@@ -115,4 +141,5 @@ var selftestVariants = map[string][]string{
 	"kctl": {"", "faults=on"},
 	"kspk": {""},
 	"gnative": {"", "openfuzz"},
+	"gfrr": {""},
 }
